@@ -297,13 +297,20 @@ func mountClass(t *tree) string {
 					has["empty-pattern"] = true
 				}
 			case 'g':
-				if inMount && strings.Contains(n.Prefix, ":") {
+				if inMount && strings.Contains(strings.ReplaceAll(n.Prefix, "\\:", ""), ":") {
 					has["param-group-inside-mount"] = true
 				}
 				rec(n.Items, inMount, groupPrefix+n.Prefix, mountDepth)
+			case 's':
+				nm++
+				has["same-subapp-mounted-again"] = true
 			case 'm':
 				nm++
-				eff := groupPrefix + n.Prefix // what the mount placeholder is registered under (group prefixes included)
+				eff := groupPrefix + n.Prefix    // what the mount placeholder is registered under (group prefixes included)
+				if strings.Contains(eff, "\\") { // pattern-shape family: an escaped special character is a constant
+					has["escaped-character-prefix"] = true
+					eff = strings.NewReplacer("\\:", "", "\\*", "", "\\+", "").Replace(eff)
+				}
 				if strings.ContainsAny(eff, "*+") {
 					has["wildcard-prefix"] = true
 				}
@@ -332,7 +339,7 @@ func mountClass(t *tree) string {
 		has["sibling-mounts"] = true
 	}
 	var feats []string
-	for _, k := range []string{"wildcard-prefix", "param-prefix", "param-group-inside-mount", "trailing-slash-prefix", "root-prefix", "uppercase-prefix", "empty-pattern", "mount-from-group", "nested-mount", "sibling-mounts"} {
+	for _, k := range []string{"escaped-character-prefix", "wildcard-prefix", "param-prefix", "param-group-inside-mount", "trailing-slash-prefix", "root-prefix", "uppercase-prefix", "empty-pattern", "mount-from-group", "nested-mount", "sibling-mounts", "same-subapp-mounted-again"} {
 		if has[k] {
 			feats = append(feats, k)
 		}
